@@ -254,7 +254,47 @@ func (g *genState) step() bool {
 // and interleaved, different key sets (buffer refills in the middle of the merge).
 func GenDirected(r *vf.Rand, kind int) Prog {
 	var p Prog
-	switch kind % 3 {
+	switch kind % 5 {
+	case 3:
+		// a keyed aggregation hands its last rows over together with end-of-stream (in-line
+		// combining on the local executor; Fold): the Flatmap pipelined after it must still
+		// deliver the rows of the last input row, whose expansion straddles the 128-row vector
+		nk := r.Pick([]int{43, 86, 129}) // 3 copies per key: 129, 258, 387 rows, one over a multiple of 128
+		cols := [][]int64{make([]int64, 2*nk), make([]int64, 2*nk)}
+		for i := 0; i < 2*nk; i++ {
+			cols[0][i], cols[1][i] = int64(i%nk), int64(1+i%3)
+		}
+		p.Nodes = append(p.Nodes, Node{Op: "const", N: r.Range(1, 3), Types: []Col{"i", "i"}, Cols: cols})
+		p.Nodes = append(p.Nodes, Node{Op: "reshard", In: []int{0}, N: 1})
+		agg := Node{Op: "reduce", In: []int{1}, Comb: "sum"}
+		if r.Bool() {
+			agg = Node{Op: "fold", In: []int{1}}
+		}
+		p.Nodes = append(p.Nodes, agg)
+		if r.Bool() {
+			p.Nodes = append(p.Nodes, Node{Op: "map", In: []int{2}, Exprs: []Expr{{K: "col", I: 0}, {K: "col", I: 1}}})
+		}
+		p.Nodes = append(p.Nodes, Node{Op: "flatmap", In: []int{len(p.Nodes) - 1}, Exprs: []Expr{{K: "const", A: 3}}})
+	case 4:
+		// keys of two columns whose orders disagree (the first ascending while the second
+		// descends), joined from two inputs and grouped from one large one: sorting and
+		// merging must compare the key columns lexicographically
+		nsh := r.Range(1, 3)
+		mk := func(rows int, off int64) Node {
+			c := [][]int64{make([]int64, rows), make([]int64, rows), make([]int64, rows)}
+			for i := 0; i < rows; i++ {
+				c[0][i], c[1][i], c[2][i] = int64(i%7), mod(off-int64(i), 11), int64(i)
+			}
+			return Node{Op: "const", N: nsh, Types: []Col{"i", "i", "i"}, Cols: c}
+		}
+		ra := r.Pick([]int{35, 120, 300})
+		p.Nodes = append(p.Nodes, mk(ra, 100), Node{Op: "prefixed", In: []int{0}, N: 2})
+		if r.Bool() {
+			p.Nodes = append(p.Nodes, mk(r.Pick([]int{20, 77}), 5), Node{Op: "prefixed", In: []int{2}, N: 2},
+				Node{Op: "cogroup", In: []int{1, 3}})
+		} else {
+			p.Nodes = append(p.Nodes, Node{Op: "cogroup", In: []int{1}})
+		}
 	case 2:
 		// many distinct keys per partition: combining tables grow (and rehash) several times
 		rows := r.Pick([]int{400, 700, 1300})
